@@ -90,6 +90,15 @@ def gcirc(ra1, dec1, ra2, dec2, units=2):
     separations.  See:
     https://en.wikipedia.org/wiki/Great-circle_distance
     """
+    #
+    # Coordinates held in integer arrays are converted to double precision:
+    # NumPy evaluates trigonometric functions of 8-bit integers in half
+    # precision, and differences of unsigned integers wrap around.
+    #
+    ra1, dec1, ra2, dec2 = [c.astype(np.float64)
+                            if isinstance(c, (np.ndarray, np.integer)) and
+                            c.dtype.kind in 'iu' else c
+                            for c in (ra1, dec1, ra2, dec2)]
     if units == 0:
         rarad1 = ra1
         dcrad1 = dec1
